@@ -190,9 +190,39 @@ type PropResult struct {
 type engineFail struct{ Fn, Why string }
 
 // targetFunctions: functions to execute for a property.
+// newInternal: an unexported function without a contract that did not exist when the baseline was
+// written. It is not verified as an entry point with arbitrary arguments (its callers establish
+// what it may assume, and a nil receiver passed by a test harness is not a reachable state); its
+// body is verified wherever it is called, because contract-less callees are executed in place.
+func newInternal(p *Program, k string, known map[string]bool) bool {
+	fn := p.funcs[k]
+	if fn == nil || p.contracts[k] != nil || known[k] {
+		return false
+	}
+	top := fn
+	for top.Parent() != nil {
+		top = top.Parent()
+	}
+	if known[p.keyOf(top)] && top != fn {
+		return false // closure of a known function
+	}
+	return !top.Object().Exported()
+}
+
 func targetFunctions(p *Program, cfg *PropConfig) []string {
 	var keys []string
+	known := map[string]bool{}
+	for _, names := range loadBaseline() {
+		for _, n := range names {
+			if i := strings.Index(n, "#"); i > 0 {
+				known[n[:i]] = true
+			}
+		}
+	}
 	for _, k := range p.sortedKeys() {
+		if len(known) > 0 && newInternal(p, k, known) {
+			continue
+		}
 		if len(cfg.Functions) > 0 {
 			if matchAny(cfg.Functions, k) {
 				keys = append(keys, k)
@@ -285,19 +315,61 @@ func taintByNewCode(mine []*Obligation, killers []*Obligation, opt dischargeOpts
 			return
 		}
 	}
+	// an obligation proved after an undischarged assertion is proved again without that assertion's
+	// assumption: only if that fails does it depend on it
+	type redo struct {
+		o, copy *Obligation
+		why     *Obligation
+	}
+	var redos []redo
 	for _, o := range mine {
 		if o.Result == nil || o.Result.Status != "unsat" {
 			continue
 		}
+		bad := map[T]bool{}
+		var first *Obligation
 		for n := o.prior; n != nil; n = n.prev {
 			p := n.ob
 			if p.Result != nil && p.Result.Status != "unsat" {
-				o.Result = &SolverResult{Status: "unknown", All: map[string]string{},
-					Raw: "proved only under an assumption that is itself not discharged: " + p.Name + " (" + p.Desc + "), asserted earlier on the same path"}
-				break
+				bad[p.Goal] = true
+				first = p
 			}
 		}
+		if first == nil {
+			continue
+		}
+		c := *o
+		c.Result = nil
+		c.Facts = nil
+		for _, f := range o.Facts {
+			if !bad[f] {
+				c.Facts = append(c.Facts, f)
+			}
+		}
+		redos = append(redos, redo{o, &c, first})
 	}
+	if len(redos) == 0 {
+		return
+	}
+	var again []*Obligation
+	for _, r := range redos {
+		again = append(again, r.copy)
+	}
+	discharge(again, opt)
+	for _, r := range redos {
+		if r.copy.Result != nil && r.copy.Result.Status == "unsat" {
+			continue // independent of the undischarged assertion
+		}
+		r.o.Result = &SolverResult{Status: "unknown", All: map[string]string{},
+			Raw: "proved only under an assumption that is itself not discharged: " + r.why.Name + " (" + r.why.Desc + "), asserted earlier on the same path; without that assumption the solver answers " + statusOf(r.copy)}
+	}
+}
+
+func statusOf(o *Obligation) string {
+	if o.Result == nil {
+		return "nothing"
+	}
+	return o.Result.Status
 }
 
 // loadFactor is max(1, 1-minute load average / cores), capped at 6.
